@@ -1033,7 +1033,8 @@ class SupportComplexDataType(Element):
     value = property(_get_value, _set_value)
 
     def _get_children(self, trailing=False):
-        if is_base_datatype(self.datatype, self.version) or self.datatype is None:
+        if is_base_datatype(self.datatype, self.version) or self.datatype in (None, 'varies'):
+            # no structure to follow (a component of a varies field has none either): the children as they are
             return [[c for c in self.children]]
         else:
             return Element._get_children(self, trailing=False)
